@@ -712,10 +712,16 @@ class VSerial:
             device.attach(self)
 
     # -- device side
+    def _emit(self, kind, **kw):
+        # events of a second port of the same process are tagged
+        if getattr(self, "tag", None):
+            kw["dev"] = self.tag
+        return S.emit(kind, **kw)
+
     def feed(self, data: bytes):
         if not self.is_open:
             return                      # nothing can arrive on a closed port
-        S.emit("feed", data=bytes(data).hex(), **({"dev": self.tag} if getattr(self, "tag", None) else {}))
+        self._emit("feed", data=bytes(data).hex())
         self.inbox.extend(data)
 
     def inject_fault(self, exc):
@@ -733,43 +739,43 @@ class VSerial:
         import serial
         if not self.is_open:
             raise serial.PortNotOpenError()
-        S.emit("read_enter")
+        self._emit("read_enter")
         S.block(lambda: bool(self.inbox) or self.fault is not None or not self.is_open,
                 None if self.timeout is None else S.now + us(self.timeout), "serial.read")
         if self.inbox:
             d = bytes(self.inbox[:size])
             del self.inbox[:size]
             self.reads.append((S.now, d))
-            S.emit("read", data=d.hex())
+            self._emit("read", data=d.hex())
             return d
         if self.fault is not None:
-            S.emit("read_fault", exc=type(self.fault).__name__)
+            self._emit("read_fault", exc=type(self.fault).__name__)
             raise self.fault
-        S.emit("read", data="")
+        self._emit("read", data="")
         return b""
 
     def write(self, data):
         import serial
         S.yield_("serial.write")
         if not self.is_open:
-            S.emit("write_rejected", data=bytes(data).hex())
+            self._emit("write_rejected", data=bytes(data).hex())
             raise serial.PortNotOpenError()
         self.nwrites += 1
         if self.write_fault_once is not None and self.nwrites == self.write_fault_once[0]:
             # a transient failure of exactly this write, before any byte went out (e.g. a write time-out)
-            S.emit("write_fault", data=bytes(data).hex(), once=True)
+            self._emit("write_fault", data=bytes(data).hex(), once=True)
             raise getattr(serial, self.write_fault_once[1])("write failed (once)")
         if self.write_fault_after is not None and self.nwrites > self.write_fault_after:
-            S.emit("write_fault", data=bytes(data).hex())
+            self._emit("write_fault", data=bytes(data).hex())
             raise serial.SerialException("write failed")
         d = bytes(data)
         self.writes.append((S.now, d))
-        S.emit("write", data=d.hex(), **({"port": self.idx} if getattr(self, "idx", 1) > 1 else {}))
+        self._emit("write", data=d.hex(), **({"port": self.idx} if getattr(self, "idx", 1) > 1 else {}))
         if self.device is not None:
             self.device.on_write(d)
         if self.write_fault_late is not None and self.nwrites == self.write_fault_late[0]:
             # the driver accepted the bytes and fails afterwards (e.g. a write time-out while flushing)
-            S.emit("write_fault", data=d.hex(), late=True)
+            self._emit("write_fault", data=d.hex(), late=True)
             raise getattr(serial, self.write_fault_late[1])("write failed after the data was accepted")
         if self.write_delay is not None:
             dl = self.write_delay(self.nwrites)
@@ -781,7 +787,7 @@ class VSerial:
         if self.is_open:
             self.is_open = False
             self.closed_at = S.now
-            S.emit("port_close", **({"port": self.idx} if getattr(self, "idx", 1) > 1 else {}))
+            self._emit("port_close", **({"port": self.idx} if getattr(self, "idx", 1) > 1 else {}))
 
     def flush(self):
         pass
